@@ -3,11 +3,13 @@
 and record which check/rule detects each (developer tool)."""
 import json, os, re, shutil, subprocess, sys
 OUT = '/verif/seeded'
+ROOT = os.environ.get('SEED_ROOT', '/tmp/seed_out')
+TAG = os.environ.get('SEED_TAG', '')     # e.g. 'r2-' for the second round
 os.makedirs(OUT, exist_ok=True)
 rows = []
 for prop in [f'C{i:02d}' for i in range(1, 21)]:
     for k in (1, 2, 3):
-        d = f'/tmp/seed_out/{prop}/{k}'
+        d = f'{ROOT}/{prop}/{k}'
         vj = os.path.join(d, 'verify.json')
         if not os.path.exists(vj):
             continue
@@ -23,7 +25,7 @@ for prop in [f'C{i:02d}' for i in range(1, 21)]:
         out = r.stdout
         rules = re.findall(r'rule (\S+) \[([^\]]*)\]', out)
         detected = 'VIOLATION property=' in out
-        tgt = os.path.join(OUT, f'{prop}-{k}')
+        tgt = os.path.join(OUT, f'{prop}-{TAG}{k}')
         os.makedirs(tgt, exist_ok=True)
         shutil.copy(patch, os.path.join(tgt, 'patch.diff'))
         shutil.copy(os.path.join(d, 'demo.py'), os.path.join(tgt, 'demo.py'))
@@ -47,5 +49,9 @@ for prop in [f'C{i:02d}' for i in range(1, 21)]:
         json.dump(meta, open(os.path.join(tgt, 'meta.json'), 'w'), indent=1)
         rows.append((prop, k, detected, meta['detecting_rules'][:1], files))
         print(prop, k, 'DETECTED' if detected else 'MISSED', meta['detecting_rules'][:1])
-json.dump([{'id': f'{p}-{k}', 'detected': d, 'rule': r, 'files': f} for p, k, d, r, f in rows], open(os.path.join(OUT, 'INDEX.json'), 'w'), indent=1)
+idx_path = os.path.join(OUT, 'INDEX.json')
+old = json.load(open(idx_path)) if os.path.exists(idx_path) else []
+new = [{'id': f'{p}-{TAG}{k}', 'detected': d, 'rule': r, 'files': f} for p, k, d, r, f in rows]
+ids = {x['id'] for x in new}
+json.dump(sorted([x for x in old if x['id'] not in ids] + new, key=lambda x: x['id']), open(idx_path, 'w'), indent=1)
 print(sum(1 for r in rows if r[2]), '/', len(rows), 'detected')
